@@ -16,6 +16,12 @@ Theorem c20_std_hash_users_allowlisted : std_users_allowed = true.
 Proof. exact std_users_allowed_true. Qed.
 Print Assumptions c20_std_hash_users_allowlisted.
 
+(** library hash containers with their default (randomly seeded) hasher are used exactly at the
+    allow-listed sites (file, number of uses): a new use anywhere falsifies this *)
+Theorem c20_default_hasher_sites_allowlisted : default_sites_allowed = true.
+Proof. exact default_sites_allowed_true. Qed.
+Print Assumptions c20_default_hasher_sites_allowlisted.
+
 (** the inventory is not vacuous *)
 Theorem c20_inventory_nonempty : hash_aliases <> [].
 Proof. exact inventory_nonempty. Qed.
